@@ -1548,6 +1548,7 @@ class Analyzer:
 # ------------------------------------------------------------------------------------ the spawn path (tool environment)
 MEMO_IDS = {"static", "OnceLock", "OnceCell", "Lazy", "LazyLock", "LazyCell", "lazy_static", "thread_local", "once_cell",
             "Once", "get_or_init", "get_or_try_init", "get_or_insert_with", "get_or_insert", "call_once", "cached", "memoize"}
+KEY_VAR_RE = re.compile(r"^[A-Z][A-Z0-9_]*_(KEY|TOKEN|SECRET|PASSWORD|PASSWD|CREDENTIALS?)$")
 SHRINK_IDS = {"clear", "remove", "retain", "take", "drain", "replace", "pop_first", "pop_last", "split_off", "swap",
               "truncate", "mem"}
 
@@ -1710,49 +1711,55 @@ def spawn_path_facts(repo):
                 notes.append(f"{fi.rel}:{t.line} spawn site outside any function")
                 continue
             f = min(encl, key=lambda f: f.body[1] - f.body[0])
-            ok, why = False, "no `for name in ..secret_env_names() { cmd.env_remove(name) }` after it"
-            for k in calls(f, "secret_env_names"):
-                if k < i:
-                    continue
-                # `for <pat> in <path> secret_env_names ( ) {`
-                j = k
-                while j > i and (fi.is_p(j - 1, "::") or fi.is_id(j - 1)) and not fi.is_id(j - 1, "in"):
-                    j -= 1
-                if not fi.is_id(j - 1, "in"):
-                    continue
-                blk = fi.mate.get(k + 1, k + 1) + 1
-                if not fi.is_p(blk, "{") or blk not in fi.mate:
-                    continue
-                body = toks[blk:fi.mate[blk]]
-                if not any(x.k == "id" and x.s == "env_remove" for x in body):
-                    why = "the loop over secret_env_names() does not env_remove"
-                    continue
-                # the loop is not nested in a conditional: its innermost enclosing brace is the fn body
-                par = fi.parent[k]
-                while par != -1 and not fi.is_p(par, "{"):
-                    par = fi.parent[par]
-                if par != f.body[0]:
-                    why = "the env_remove loop is conditional (nested block)"
-                    continue
-                after = list(range(fi.mate[blk], f.body[1]))
-                before = list(range(i, k))
-                spawn_before = [x for x in before if toks[x].k == "id" and toks[x].s in ("spawn", "spawn_command") and fi.is_p(x - 1, ".")]
-                spawn_after = [x for x in after if toks[x].k == "id" and toks[x].s in ("spawn", "spawn_command") and fi.is_p(x - 1, ".")]
-                own_env_before = [x for x in before if toks[x].k == "id" and toks[x].s in ("envs", "env") and fi.is_p(x - 1, ".") and fi.is_p(x + 1, "(")]
-                if spawn_before or not spawn_after:
-                    why = "the subprocess is spawned before the credential variables are removed"
-                    continue
-                if own_env_before:
-                    why = "the call's own env is applied before the removal (an explicit env must win)"
-                    continue
-                ok = True
+            ok, why = False, "no secret_env_names() + env_remove between the construction and the spawn"
+            spawns = [x for x in range(i, f.body[1]) if toks[x].k == "id" and toks[x].s in ("spawn", "spawn_command") and fi.is_p(x - 1, ".") and fi.is_p(x + 1, "(")]
+            if not spawns:
+                why = "no .spawn( / .spawn_command( after the construction"
+            else:
+                sp = spawns[0]
+                names_calls = [k for k in calls(f, "secret_env_names") if i < k < sp]
+                removes = [x for x in range(i, sp) if toks[x].k == "id" and toks[x].s == "env_remove" and fi.is_p(x - 1, ".") and fi.is_p(x + 1, "(")]
+                if not names_calls:
+                    why = "secret_env_names() is not asked between the construction and the spawn"
+                elif not [x for x in removes if x > names_calls[0]]:
+                    why = "no env_remove after secret_env_names() and before the spawn"
+                else:
+                    rm = [x for x in removes if x > names_calls[0]][0]
+                    # unconditional: every block between the env_remove and the function body is a `for` loop or a closure
+                    cond = None
+                    for blk in [names_calls[0], rm]:
+                        par = fi.parent[blk]
+                        while par != -1 and par != f.body[0]:
+                            if fi.is_p(par, "{"):
+                                h = par - 1
+                                while h > f.body[0] and not (toks[h].k == "p" and toks[h].s in (";", "{", "}")):
+                                    h -= 1
+                                head = [x.s for x in toks[h + 1:par] if x.k == "id"]
+                                closure = fi.is_p(par - 1, "|")
+                                if not closure and (not head or head[0] != "for"):
+                                    cond = " ".join(head[:3]) or "block"
+                            par = fi.parent[par]
+                    own_env_before = [x for x in range(i, rm) if toks[x].k == "id" and toks[x].s in ("envs", "env") and fi.is_p(x - 1, ".") and fi.is_p(x + 1, "(")]
+                    if cond:
+                        why = f"the removal is conditional (inside `{cond} ..`)"
+                    elif own_env_before:
+                        why = "the call's own env is applied before the removal (an explicit env must win)"
+                    else:
+                        ok = True
             if ok:
                 n_strip += 1
             else:
                 notes.append(f"{fi.rel}:{t.line} spawn site in fn {f.name}: {why}")
     if n_sites == 0:
         notes.append("no subprocess spawn site found in rip-tools/src or ripd/src")
-    return fixed, fresh, grows, load_registers, loaders, n_sites, n_strip, notes
+    # (7) no credential-shaped variable name outside the fixed list (a fallback variable the spawn path does not know)
+    unlisted = set()
+    for fi in tools + ripd + load_rs(repo, "rip-cli") + load_rs(repo, "rip-provider-openresponses"):
+        for i, t in enumerate(fi.toks):
+            if t.k == "str" and not fi.test[i] and KEY_VAR_RE.match(t.s) and t.s not in fixed:
+                unlisted.add(t.s)
+                notes.append(f"{fi.rel}:{t.line} credential-shaped variable name {t.s!r} is not in PROVIDER_KEY_ENV_VARS")
+    return fixed, fresh, grows, load_registers, loaders, n_sites, n_strip, len(unlisted), notes
 
 
 
@@ -1840,7 +1847,7 @@ def main():
     if not any(r.startswith("ripd/src/server.rs") for r, _, _ in kinds_found.get("UPresence", [])):
         problems.append("anchor use not found: presence test in server.rs (doctor)")
 
-    sp_fixed, sp_fresh, sp_grows, sp_load, sp_loaders, sp_sites, sp_strip, sp_notes = spawn_path_facts(a.repo)
+    sp_fixed, sp_fresh, sp_grows, sp_load, sp_loaders, sp_sites, sp_strip, sp_unlisted, sp_notes = spawn_path_facts(a.repo)
 
     def cb(b):
         return "true" if b else "false"
@@ -1892,14 +1899,15 @@ def main():
     for nt in sp_notes:
         out.append("(* SPAWN-PATH PROBLEM: " + nt.replace("*)", "* )").replace("(*", "( *") + " *)")
     out.append("Definition gen_spawn_facts : spawn_facts :=")
-    out.append("  mkSpawnFacts [%s] %s %s %s %s %d %d." % ("; ".join(coq_lit(x) for x in sp_fixed), cb(sp_fresh), cb(sp_grows), cb(sp_load), cb(sp_loaders), sp_sites, sp_strip))
+    out.append("  mkSpawnFacts [%s] %s %s %s %s %d %d %d." % ("; ".join(coq_lit(x) for x in sp_fixed), cb(sp_fresh), cb(sp_grows), cb(sp_load), cb(sp_loaders), sp_sites, sp_strip, sp_unlisted))
     out.append("Lemma gen_spawn_facts_ok : spawn_facts_wf gen_spawn_facts = true.")
     out.append("Proof. vm_compute. reflexivity. Qed.")
     out.append("Lemma gen_spawn_path_as_modelled :")
     out.append("  sf_fixed_names gen_spawn_facts = [E_API_KEY; E_OPENAI; E_OPENROUTER]")
     out.append("  /\\ sf_names_fresh gen_spawn_facts = true /\\ sf_registry_grows_only gen_spawn_facts = true")
     out.append("  /\\ sf_load_registers gen_spawn_facts = true /\\ sf_loaders_found gen_spawn_facts = true")
-    out.append("  /\\ 1 <= sf_spawn_sites gen_spawn_facts /\\ sf_spawn_sites gen_spawn_facts = sf_spawn_sites_stripping gen_spawn_facts.")
+    out.append("  /\\ 1 <= sf_spawn_sites gen_spawn_facts /\\ sf_spawn_sites gen_spawn_facts = sf_spawn_sites_stripping gen_spawn_facts")
+    out.append("  /\\ sf_unlisted_key_vars gen_spawn_facts = 0.")
     out.append("Proof. exact (spawn_facts_wf_sound _ gen_spawn_facts_ok). Qed.")
     out.append("")
     out.append("Lemma gen_uses_within_model_flows :")
@@ -1917,7 +1925,7 @@ def main():
     for p in problems:
         print("  PROBLEM " + p)
     print(f"secret_uses: spawn path: fixed={sp_fixed} fresh={sp_fresh} grows_only={sp_grows} load_registers={sp_load} "
-          f"loaders={sp_loaders} spawn sites {sp_strip}/{sp_sites} stripping")
+          f"loaders={sp_loaders} spawn sites {sp_strip}/{sp_sites} stripping, {sp_unlisted} unlisted key variables")
     for nt in sp_notes:
         print("  SPAWN-PATH PROBLEM " + nt)
     if a.verbose:
